@@ -13,6 +13,7 @@ CONSTANT VKWeights = {"w1"}
 CONSTANT Bits = {8, 16}
 CONSTANT Flips = {FALSE, TRUE}
 CONSTANT Accs = {"U55_128", "U55_32", "U65_512"}
-CONSTANT ClearOnCompile = FALSE
+CONSTANT ClearOnCompile = TRUE
+CONSTANT ExtendedKey = TRUE
 CONSTANT Assume = FALSE
 CHECK_DEADLOCK FALSE
